@@ -8,7 +8,10 @@ from pathlib import Path
 D = Path(__file__).resolve().parent / "manifest.d"
 HOOK_COMMITS = json.loads((D / "hook_commits.json").read_text()) if (D / "hook_commits.json").exists() else []
 CHECKS = []
+_enabled = set(json.loads((D / "enabled.json").read_text())) if (D / "enabled.json").exists() else None
 for p in sorted(D.glob("C[0-9][0-9].json")):
+    if _enabled is not None and p.stem not in _enabled:
+        continue
     e = json.loads(p.read_text())
     e["property_id"] = p.stem
     CHECKS.append(e)
